@@ -1476,6 +1476,58 @@ def gen_glue(tree, out, report):
     except Exception as e:
         report["model.py glue"] = "untranslatable: internal " + type(e).__name__ + ": " + str(e)
 
+
+# ------------------------------------------------------------------------------------------------ util.py: binary search
+USRC = "summer2/functions/util.py"
+UHEADER = """-- GENERATED by harness/translate/gen_rates.py from /repo (summer2/functions/util.py). Do not edit.
+import Summer.Basic
+set_option linter.unusedVariables false
+namespace Summer.Generated.Util
+open Summer
+
+section
+variable {α : Type} [Zero α] [LT α] [DecidableLT α]
+"""
+
+
+def gen_util(tree, out, report):
+    """`binary_search_sum_ge`: the loop condition, the loop body, the initial state and the final selection, recognised against the expected
+    source text and emitted as four definitions (`lax.while_loop` itself is the recursion of the hand model, which `C16Source.bsLoop_unfold`
+    shows to satisfy the while-loop equation for exactly this condition and body)"""
+    try:
+        fn = top_func(tree, "binary_search_sum_ge")
+        if arg_names(fn) != ["x", "points"]:
+            raise Untranslatable("signature of binary_search_sum_ge")
+        body = [ast.unparse(st) for st in fn.body if not (isinstance(st, ast.Expr) and isinstance(st.value, ast.Constant))]
+        want = ["def cond(state):\n    low, high = state\n    return high - low > 1",
+                "def body(state):\n    low, high = state\n    midpoint = (0.5 * (low + high)).astype(int)\n    update_upper = x < points[midpoint]\n"
+                "    low = jnp.where(update_upper, low, midpoint)\n    high = jnp.where(update_upper, midpoint, high)\n    return (low, high)",
+                "low, high = lax.while_loop(cond, body, (-1, len(points) - 1))",
+                "return lax.cond(x < points[high], lambda: low, lambda: high) + 1"]
+        if body != want:
+            k = next((i for i, (a, b_) in enumerate(zip(body, want)) if a != b_), min(len(body), len(want)))
+            raise Untranslatable(f"binary_search_sum_ge: statement {k} is not the expected text: " + (body[k][:120] if k < len(body) else "<missing>"))
+        out.append(
+            "/-- `binary_search_sum_ge.cond` -/\n"
+            "def bs_cond (low high : Int) : Bool := decide (high - low > 1)\n\n"
+            "/-- `binary_search_sum_ge.body` (`(0.5 * (low + high)).astype(int)`: the sum is non-negative whenever the loop runs from `(-1, n - 1)`, "
+            "so truncation and floor agree; `points[midpoint]` with JAX index semantics) -/\n"
+            "def bs_body (x : α) (points : List α) (low high : Int) : Int × Int :=\n"
+            "  let midpoint : Int := (low + high) / 2\n"
+            "  let update_upper := decide (x < jget points midpoint)\n"
+            "  let low' := if update_upper then low else midpoint\n"
+            "  let high' := if update_upper then midpoint else high\n"
+            "  (low', high')\n\n"
+            "/-- the initial state `(-1, len(points) - 1)` -/\n"
+            "def bs_init (points : List α) : Int × Int := (-1, (points.length : Int) - 1)\n\n"
+            "/-- `lax.cond(x < points[high], lambda: low, lambda: high) + 1` -/\n"
+            "def bs_result (x : α) (points : List α) (low high : Int) : Int := (if x < jget points high then low else high) + 1\n")
+        report["binary_search_sum_ge"] = "ok"
+    except Untranslatable as e:
+        report["binary_search_sum_ge"] = "untranslatable: " + str(e)
+    except Exception as e:
+        report["binary_search_sum_ge"] = "untranslatable: internal " + type(e).__name__ + ": " + str(e)
+
 IHEADER = """-- GENERATED by harness/translate/gen_rates.py from /repo (summer2/runner/jax/stratify.py). Do not edit.
 import Summer.Model.JaxPrelude
 import Summer.Model.Run
@@ -1675,6 +1727,21 @@ def main():
     if old != gtext:
         with open(gpath, "w") as f:
             f.write(gtext)
+    # util.py
+    uout = [UHEADER]
+    try:
+        with open(os.path.join(REPO, USRC)) as f:
+            utree = ast.parse(f.read())
+        gen_util(utree, uout, report)
+    except Exception as e:
+        report["util.py"] = "untranslatable: " + type(e).__name__ + ": " + str(e)
+    uout.append("end\nend Summer.Generated.Util\n")
+    utext = "\n".join(uout)
+    upath = os.path.join(OUT, "Util.lean")
+    old = open(upath).read() if os.path.exists(upath) else None
+    if old != utext:
+        with open(upath, "w") as f:
+            f.write(utext)
     print(json.dumps(report))
 
 
